@@ -468,10 +468,10 @@ def generic_replay(ctx, rp):
     """Re-execute the operations of a replay file on the real code built from /repo's working tree
     and let TLC judge the resulting trace against the abstract specification."""
     comp = rp["component"]
-    if comp not in COMPONENTS:
+    if comp not in COMPONENTS and not rp.get("replay_ctx"):
         log("replay of component %s: re-run the check itself (%s)" % (comp, rp.get("note", "")))
         return 2
-    cmd, overlays, specdir, tmod, tcfg = COMPONENTS[comp]
+    cmd, overlays, specdir, tmod, tcfg = COMPONENTS.get(comp, (None, None, None, None, None))
     rc = rp.get("replay_ctx")
     if rc:   # recorded by the run that found the violation: same driver, trace specification, configuration, environment
         cmd, overlays, specdir, tmod, tcfg = rc["gocmd"], rc["overlays"], rc["specdir"], rc["trace_mod"], rc["trace_cfg"]
@@ -498,6 +498,56 @@ def generic_replay(ctx, rp):
     log("replay: the abstract specification REJECTS event %s of %d" % (line, n))
     log("VIOLATION property=%s replay=%s" % (rp.get("property", ctx.pid), os.environ.get("VERIF_REPLAY_PATH", "(same file)")))
     return 1
+
+
+def case_replay(ctx, rp):
+    """Re-run the one case of a replay file (a case TLC printed, with what the specification expects) on the real
+    functions built from the current tree."""
+    rc = rp["replay_ctx"]
+    case = rp.get("case")
+    if not case:
+        log("replay: the file holds no case; re-run the check itself")
+        return 2
+    ctx.copy_repo(rc.get("overlays", []))
+    binp = ctx.go_build(rc["gocmd"])
+    f = os.path.join(ctx.out, "one_case.txt")
+    with open(f, "w") as fo:
+        fo.write(json.dumps(json.dumps(case)) + "\n")
+    outd = os.path.join(ctx.out, "replay")
+    os.makedirs(outd, exist_ok=True)
+    failed = 0
+    for seed in (ctx.seed, 1, 2, 3):   # (variants of a case - masks, layouts - are chosen from the seed)
+        rr = subprocess.run([binp, "-cases", f, "-out", outd, "-seed", str(seed), "-tier", rp.get("tier", "quick")] + list(rc.get("extra_args", [])),
+                            capture_output=True, text=True, env=GOENV, timeout=600)
+        if rr.returncode != 0:
+            if ("panic:" in rr.stderr or "fatal error" in rr.stderr) and "welllog/golib" in rr.stderr.replace("golib/verifshim", ""):
+                log("replay: the real code crashed the process: %s" % rr.stderr[:300])
+                failed += 1
+                continue
+            log("replay: the case runner failed: %s" % rr.stderr[-800:])
+            return 2
+        st = read_json(os.path.join(outd, rc["gocmd"] + "_cases.json"))
+        for m in st["mismatches"]:
+            if m.get("kind") != "drift":
+                log("replay: %s %s: expected %s, got %s" % (m["fn"], m["kind"], json.dumps(m["expected"])[:200], json.dumps(m["actual"])[:200]))
+                failed += 1
+    if failed:
+        log("VIOLATION property=%s replay=%s" % (rp.get("property", ctx.pid), os.environ.get("VERIF_REPLAY_PATH", "(same file)")))
+        return 1
+    log("replay: the real functions now agree with the specification on this case")
+    return 0
+
+
+def replay_any(ctx, rp):
+    """./check replay <file>: re-execute what the file records on the current tree and re-judge it."""
+    rc = rp.get("replay_ctx") or {}
+    if rc.get("kind") == "case":
+        return case_replay(ctx, rp)
+    if rp.get("component") in COMPONENTS or rc.get("trace_mod"):
+        if rp.get("ops") is not None and rp.get("init") is not None:
+            return generic_replay(ctx, rp)
+    log("replay: this violation came from a concurrent or scenario run (schedules are not replayable from a file): re-run ./check %s" % rp.get("property", ctx.pid))
+    return 2
 
 
 # -------------------------------------------------------------------- concurrent components (E3 / E4)
@@ -680,6 +730,7 @@ def case_component(ctx, name, specdir, module, cfgs, gocmd, overlays=(), extra_a
     """TLC evaluates the TLA+ definitions on every generated input and prints (input, expected)
     cases; the Go runner executes the real functions and compares. A disagreement contradicts the
     abstract definition directly: VIOLATION."""
+    ctx.replay_ctx = {"kind": "case", "gocmd": gocmd, "overlays": list(overlays), "extra_args": list(extra_args)}
     outs = []
     ncases = 0
     for cfg in cfgs:
